@@ -6,6 +6,7 @@
  */
 #ifndef NET_H_
 #define NET_H_
+#include "ev_spec.h"
 
 /* ghost state declared extern by the spec / models */
 #define NET_GHOSTS \
@@ -19,15 +20,34 @@
  * Objects are allocated by the harness (pointers must be assigned, not assumed: HOWTO trap 1); the scalar content
  * is arbitrary and then constrained by INV_net.
  */
+/*
+ * Capacities.  NET_FIXCAP_S / NET_FIXCAP_F: the capacity of S / of fds is fixed at the size parameter (for the
+ * functions that never reallocate it: the capacity is then irrelevant and a typed constant-size object is ~40x
+ * cheaper for CBMC than an object of symbolic size).  Otherwise the capacity is symbolic.
+ */
 #ifdef NET_FIXCAP
-/* capacities fixed at the size parameters (the function under proof never reallocates): typed constant-size objects */
+#define NET_FIXCAP_S
+#define NET_FIXCAP_F
+#endif
+#ifdef NET_FIXCAP_S
 #define NET_ALLOC_S(ea, a) do { __CPROVER_assume((a) == NS_Q * sizeof(struct socketrec)); \
 	(ea)->buf = malloc(NS_Q * sizeof(struct socketrec)); __CPROVER_assume((ea)->buf != NULL); } while (0)
-#define NET_ALLOC_F(a) do { __CPROVER_assume((a) == NF_A); \
-	fds = malloc(NF_A * sizeof(struct pollfd)); __CPROVER_assume(fds != NULL); } while (0)
 #else
 #define NET_ALLOC_S(ea, a) do { if ((a) == 0) (ea)->buf = NULL; \
 	else { (ea)->buf = malloc(a); __CPROVER_assume((ea)->buf != NULL); } } while (0)
+#endif
+#ifdef NET_FA_EXACT
+/* capacity of fds fixed at the (matrix) value NET_FA_EXACT: the functions that realloc fds are proved per capacity */
+#if NET_FA_EXACT == 0
+#define NET_ALLOC_F(a) do { __CPROVER_assume((a) == 0); fds = NULL; } while (0)
+#else
+#define NET_ALLOC_F(a) do { __CPROVER_assume((a) == NET_FA_EXACT); \
+	fds = malloc(NET_FA_EXACT * sizeof(struct pollfd)); __CPROVER_assume(fds != NULL); } while (0)
+#endif
+#elif defined(NET_FIXCAP_F)
+#define NET_ALLOC_F(a) do { __CPROVER_assume((a) == NF_A); \
+	fds = malloc(NF_A * sizeof(struct pollfd)); __CPROVER_assume(fds != NULL); } while (0)
+#else
 #define NET_ALLOC_F(a) do { if ((a) == 0) fds = NULL; \
 	else { fds = malloc((a) * sizeof(struct pollfd)); __CPROVER_assume(fds != NULL); } } while (0)
 #endif
